@@ -1681,9 +1681,70 @@ func init() {
 	models["io.ReadAll"] = func(f *Frame, st *State, e *ast.CallExpr, recv *Term, args []*Term, sig *types.Signature) []*Term {
 		c := f.c
 		r := args[0]
-		data := App(c.ufun("restBytes", []Sort{SIfc}, SByt), SByt, r)
-		er := App(c.ufun("restErr", []Sort{SIfc}, SIfc), SIfc, r)
-		return []*Term{Ite(Eq(er, IfaceNil), data, c.fresh("partial", SByt)), er}
+		// reading through a TeeReader: the data comes from its source and is appended to its writer's ghost sequence
+		rr := ifaceRef(r)
+		isTee := Select(c.heapGet(st, "TEE!is", ArrSort(SInt, SBool)), rr)
+		src := Ite(isTee, Select(c.heapGet(st, "TEE!src", ArrSort(SInt, SIfc)), rr), r)
+		data := App(c.ufun("restBytes", []Sort{SIfc}, SByt), SByt, src)
+		er := App(c.ufun("restErr", []Sort{SIfc}, SIfc), SIfc, src)
+		got := Ite(Eq(er, IfaceNil), data, c.fresh("partial", SByt))
+		c.hitemSort()
+		w := Select(c.heapGet(st, "TEE!dst", ArrSort(SInt, SInt)), rr)
+		ln := c.heapGet(st, "HS!len", ArrSort(SInt, SInt))
+		it := c.heapGet(st, "HS!items", ArrSort(SInt, ArrSort(SInt, "HItem")))
+		n := Select(ln, w)
+		c.heapSet(st, "HS!items", Ite(isTee, Store(it, w, Store(Select(it, w), n, App("HB", "HItem", got))), it))
+		c.heapSet(st, "HS!len", Ite(isTee, Store(ln, w, Add(n, IntLit(1))), ln))
+		return []*Term{got, er}
+	}
+	// io.MultiWriter(a, b): a writer object that remembers its two targets (ghost MW!a / MW!b / MW!is)
+	models["io.MultiWriter"] = func(f *Frame, st *State, e *ast.CallExpr, recv *Term, args []*Term, sig *types.Signature) []*Term {
+		c := f.c
+		if len(e.Args) != 2 {
+			f.fail(e, "io.MultiWriter: only the two-writer form is modelled")
+		}
+		a, _, _ := f.varArg(st, e, args[0], 0, 0)
+		b, _, _ := f.varArg(st, e, args[0], 0, 1)
+		m := f.alloc(st)
+		c.heapSet(st, "MW!is", Store(c.heapGet(st, "MW!is", ArrSort(SInt, SBool)), m, TTrue))
+		c.heapSet(st, "MW!a", Store(c.heapGet(st, "MW!a", ArrSort(SInt, SInt)), m, ifaceRef(a)))
+		c.heapSet(st, "MW!b", Store(c.heapGet(st, "MW!b", ArrSort(SInt, SInt)), m, ifaceRef(b)))
+		return []*Term{App("mkI", SIfc, c.tagOf(types.NewPointer(types.Typ[types.Int8])), m)}
+	}
+	// io.TeeReader(r, w): a reader object that remembers its source and the writer it copies to
+	models["io.TeeReader"] = func(f *Frame, st *State, e *ast.CallExpr, recv *Term, args []*Term, sig *types.Signature) []*Term {
+		c := f.c
+		t := f.alloc(st)
+		c.heapSet(st, "TEE!is", Store(c.heapGet(st, "TEE!is", ArrSort(SInt, SBool)), t, TTrue))
+		c.heapSet(st, "TEE!src", Store(c.heapGet(st, "TEE!src", ArrSort(SInt, SIfc)), t, args[0]))
+		c.heapSet(st, "TEE!dst", Store(c.heapGet(st, "TEE!dst", ArrSort(SInt, SInt)), t, ifaceRef(args[1])))
+		return []*Term{App("mkI", SIfc, c.tagOf(types.NewPointer(types.Typ[types.Int16])), t)}
+	}
+	// io.Copy(dst, src): ONE chunk (an arbitrary byte string: the rest of src) is appended to the ghost sequence of
+	// dst - to both targets when dst is a MultiWriter. When the copy fails the targets may have received different
+	// partial data (MultiWriter writes to its first target first).
+	models["io.Copy"] = func(f *Frame, st *State, e *ast.CallExpr, recv *Term, args []*Term, sig *types.Signature) []*Term {
+		c := f.c
+		c.hitemSort()
+		failed := c.fresh("copyErr", SBool)
+		chunk := c.fresh("copyChunk", SByt)
+		d := ifaceRef(args[0])
+		isMW := Select(c.heapGet(st, "MW!is", ArrSort(SInt, SBool)), d)
+		ta := Select(c.heapGet(st, "MW!a", ArrSort(SInt, SInt)), d)
+		tb := Select(c.heapGet(st, "MW!b", ArrSort(SInt, SInt)), d)
+		appendIf := func(cond *Term, h *Term, data *Term) {
+			ln := c.heapGet(st, "HS!len", ArrSort(SInt, SInt))
+			it := c.heapGet(st, "HS!items", ArrSort(SInt, ArrSort(SInt, "HItem")))
+			n := Select(ln, h)
+			c.heapSet(st, "HS!items", Ite(cond, Store(it, h, Store(Select(it, h), n, App("HB", "HItem", data))), it))
+			c.heapSet(st, "HS!len", Ite(cond, Store(ln, h, Add(n, IntLit(1))), ln))
+		}
+		partialA, partialB := c.fresh("copyPartial", SByt), c.fresh("copyPartial", SByt)
+		appendIf(Not(isMW), d, Ite(failed, partialA, chunk))
+		appendIf(isMW, ta, Ite(failed, partialA, chunk))
+		appendIf(isMW, tb, Ite(failed, partialB, chunk))
+		n := c.fresh("copied", SInt)
+		return []*Term{n, Ite(failed, f.someError(), IfaceNil)}
 	}
 	models["bufio.NewScanner"] = func(f *Frame, st *State, e *ast.CallExpr, recv *Term, args []*Term, sig *types.Signature) []*Term {
 		c := f.c
